@@ -38,6 +38,7 @@ class SoftwareEosRepulseManager:
         self.repulse_settings = repulse_settings
         self._button_is_active = False
         self._is_eos_closed_long_enough = False
+        self._coil_enabled_by_repulse = False
         self._handlers = []
 
         self._handlers.append(self.machine.switch_controller.add_switch_handler_obj(
@@ -61,6 +62,10 @@ class SoftwareEosRepulseManager:
     def stop(self):
         """Stop software repulse."""
         self.machine.switch_controller.remove_switch_handler_by_keys(self._handlers)
+        if self._coil_enabled_by_repulse:
+            # nobody will see the button release any more. do not leave the coil energised
+            self._coil_enabled_by_repulse = False
+            self.driver.hw_driver.disable()
 
     def _button_active(self, **kwargs):
         del kwargs
@@ -69,6 +74,7 @@ class SoftwareEosRepulseManager:
     def _button_inactive(self, **kwargs):
         del kwargs
         self._button_is_active = False
+        self._coil_enabled_by_repulse = False
         self.driver.hw_driver.disable()
 
     def _eos_closed_long_enough(self, **kwargs):
@@ -84,6 +90,7 @@ class SoftwareEosRepulseManager:
 
         if self.driver.hold_settings:
             self.driver.hw_driver.enable(self.driver.pulse_settings, self.driver.hold_settings)
+            self._coil_enabled_by_repulse = True
         else:
             self.driver.hw_driver.pulse(self.driver.pulse_settings)
 
